@@ -20,6 +20,7 @@ def r5(ctx):
 
 
 RULES = {
+    "C18.RG": lambda ctx: __import__("rules.foundations", fromlist=["x"]).no_global_state(ctx, "C18.RG"),
     # the data-URL round trip writes through the accessors and iterators of the map
     "C18.R0": lambda ctx: __import__("rules.foundations", fromlist=["x"]).accessors(ctx, "C18.R0", None),
     "C18.R0b": lambda ctx: __import__("rules.encrules", fromlist=["x"]).only_duplicates_skipped(ctx, "C18.R0b"),
